@@ -32,7 +32,7 @@ RULE = ("circuits with registers named from {'b','a','q','z'} created in non-sor
 FLOORS = {"circuits_reloaded_after_in_place_edit": 5, "circuits_emulated": 15, "stubs_probed": 20}
 
 HDR = '''from guppylang import guppy
-from guppylang.std.builtins import result, array
+from guppylang.std.builtins import result, array, owned
 from guppylang.std.quantum import qubit, h, x, t, discard, discard_array, measure
 from guppylang.std.debug import state_result
 
@@ -47,12 +47,20 @@ def plan(tier, seed):
 def gen_circuit(rng, measured):
     from pytket import Circuit, Qubit, Bit
 
-    regs = rng.sample(["b", "a", "q", "z"], rng.randint(1, 2))
+    big = measured and rng.random() < 0.25
+    if big:
+        # one register of 11-12 qubits: index 10 must not be sorted before index 2
+        regs = [rng.choice(["q", "r"])]
+    elif rng.random() < 0.3:
+        # names one of which is a prefix of the other, followed by a digit / capital
+        regs = rng.sample(rng.choice([["q", "q2"], ["a", "a0", "aB"], ["r1", "r", "r10"]]), 2)
+    else:
+        regs = rng.sample(["b", "a", "q", "z"], rng.randint(1, 2))
     c = Circuit()
     qubits = []
     sizes = {}
     for r in regs:
-        sz = rng.randint(1, 2)
+        sz = rng.randint(11, 12) if big else rng.randint(1, 2)
         sizes[r] = sz
         reg = c.add_q_register(r, sz)
         qubits += list(reg)
@@ -180,10 +188,13 @@ def observe(ctx, rng, idx, circ, regs, sizes, gates, nbits, use_arrays, measured
         stub_variants.append(("missing-qubit", nq - 1, ret_ok, False))
     wrong_ret = "bool" if nbits != 1 else "None"
     stub_variants.append(("wrong-return", nq, wrong_ret, False))
+    if nq <= 4:
+        stub_variants.append(("owned-qubit", nq, ret_ok, False))
     import types
 
     for vname, k, ret, want in stub_variants:
-        ps = ", ".join(f"q{i}: qubit" for i in range(k))
+        ps = ", ".join(f"q{i}: qubit" + (" @owned" if vname == "owned-qubit" and i == k - 1 else "")
+                       for i in range(k))
         src = HDR + f"@guppy.pytket(CIRC)\ndef stub({ps}) -> {ret}: ...\n"
         counters["stubs_probed"] += 1
         try:
